@@ -9,6 +9,16 @@ import (
 // ordering anomaly of the file store (that one belongs to C11/C09).
 var NamePool = []string{"a", "a.txt", "dir/x", "dir/sub/y.json", "sp ace", "ünï/codé", "a%2Fb", "q?x", "h#x", "a+b", ".hidden", "x/o/y", "o", "b", "d.o.t.s"}
 
+// NestNames are in directory conflict with each other ("top" is a file or a
+// directory of the file store, never both at once). The runner skips a request
+// whose name is not representable at that moment, so what these exercise is the
+// SEQUENCE: a name becomes usable again once the objects in its way are deleted
+// (clean-up of emptied directories), in both directions.
+var NestNames = []string{"top/mid/leaf", "top", "top/mid", "top/z"}
+
+// AllNames = NamePool + NestNames.
+var AllNames = append(append([]string{}, NamePool...), NestNames...)
+
 // HostileNames confuse URL parsing (thorough tier of C02, C15).
 var HostileNames = []string{"b/x/o/y", "storage/v1/b/x/o/y"}
 
